@@ -126,9 +126,20 @@ func (uconn *UConn) buildHandshakeState(loadSession bool) error {
 	} else {
 		uAssert(uconn.clientHelloBuildStatus == BuildByUtls || uconn.clientHelloBuildStatus == NotBuilt, "BuildHandshakeState failed: invalid call, client hello has already been built by go-tls")
 		if uconn.clientHelloBuildStatus == NotBuilt {
+			// After BuildHandshakeStateWithoutSession the preset is applied a second time (this is
+			// what installs a session extension set in between). The cached spec then already
+			// carries the public key shares, which ApplyPreset keeps while resetting their private
+			// keys: preserve the keys generated by the first application.
+			var keyShareKeys *KeySharePrivateKeys
+			if uconn.clientHelloSpec != nil {
+				keyShareKeys = uconn.HandshakeState.State13.KeyShareKeys
+			}
 			err := uconn.applyPresetByID(uconn.ClientHelloID)
 			if err != nil {
 				return err
+			}
+			if keyShareKeys != nil {
+				uconn.HandshakeState.State13.KeyShareKeys = keyShareKeys
 			}
 			if uconn.omitSNIExtension {
 				uconn.removeSNIExtension()
